@@ -6,8 +6,6 @@ import (
 
 	"pgregory.net/rapid"
 	. "verifharness/evid"
-	"verifharness/gen"
-	. "verifharness/hist"
 )
 
 // ---------------- C16: no residue
@@ -33,31 +31,7 @@ func genC16(t *rapid.T) Case {
 		// family: transactions over three names, half of them deletions, no logs and no
 		// per-transaction unique ref - so that compactions whose result is EMPTY, stacks that
 		// become empty again, and Close/Clean on them actually occur
-		names := []string{"refs/heads/a", "refs/heads/b", "HEAD"}
-		mk := func() HTx {
-			tx := HTx{}
-			for i := 0; i < rapid.IntRange(1, 2).Draw(t, "cn"); i++ {
-				r := HRef{Name: Str(rapid.SampledFrom(names).Draw(t, "cname")), Kind: gen.KDel}
-				if rapid.Bool().Draw(t, "cval") {
-					r.Kind, r.Val = gen.KVal, PoolHash(t, hs)
-				}
-				tx.Refs = append(tx.Refs, r)
-			}
-			return tx
-		}
-		c.Init = nil
-		for i := 0; i < rapid.IntRange(0, 4).Draw(t, "cinit"); i++ {
-			tx := mk()
-			c.Init = append(c.Init, InitOp{Tx: &tx})
-		}
-		for p := range c.Progs {
-			for i := range c.Progs[p].Ops {
-				op := &c.Progs[p].Ops[i]
-				for j := range op.Txs {
-					op.Txs[j] = mk()
-				}
-			}
-		}
+		cancelFamily(t, &c, hs)
 		return c
 	}
 	if n >= 2 && rapid.IntRange(0, 2).Draw(t, "crashFamily") == 0 {
